@@ -2735,10 +2735,25 @@ class CppEmitter(Visitor):
             peeled.append(ty)
             ty = ty.elt
         # ``ty`` is now the scalar / tuple leaf.
-        inner = f'{ty.format()}{{}}'
-        for layer, d in zip(reversed(peeled), reversed(dim_strs)):
-            inner = self._list_new_filled(layer, d, inner)
-        return inner
+        leaf = f'{ty.format()}{{}}'
+
+        def build(k: int) -> str:
+            layer, d = peeled[k], dim_strs[k]
+            if k == len(peeled) - 1:
+                return self._list_new_filled(layer, d, leaf)
+            assert isinstance(layer, CppList)
+            if not contains_boxed(layer.elt):
+                return self._list_new_filled(layer, d, build(k + 1))
+            # `(n, fill)` would copy one *handle* n times, making every row the
+            # same list; build each row afresh instead.
+            out, i = self._open_fill_loop(layer, d)
+            row = build(k + 1)
+            self.writer.add_line(f'{self._list_at_raw(layer, out, i)} = {row};')
+            self.writer.dedent()
+            self.writer.add_line('}')
+            return out
+
+        return build(0)
 
     def _emit_zip(self, e: Zip, ctx) -> str:
         """``zip(xs1, …, xsN)`` builds a
